@@ -98,3 +98,7 @@ package lexer
 //@     invariant 0 <= l.position && l.position < len(l.expression) && l.position >= old(l.position) && l.expression == old(l.expression)
 //@     decreases len(l.expression) - l.position
 //@     bound len(l.expression)
+
+//@ func NewLexer
+//@   tags C04
+//@   ensures result.position == 0 && same(result.expression, expression)
